@@ -129,6 +129,31 @@ class StepHooks(Hooks):
             init = c["init"]
             if "SolOut" in init.get("ty", "") or tast.contains(init, lambda x: x.get("k") == "Path" and "Option<&mut S>" in x.get("ty", "")):
                 return "then" if self.solout_present else "else"
+        # `flag == ControlFlag::Interrupt` / `flag != ..` on the bound answer of the callback
+        neg = False
+        cc = c
+        while cc.get("k") == "Unary" and cc.get("op") == "Not":
+            cc = cc["e"]
+            neg = not neg
+        if cc.get("k") == "Binary" and cc.get("op") in ("Eq", "Ne") and "ControlFlag" in ((cc["l"].get("ty") or "") + (cc["r"].get("ty") or "")):
+            for a_, b_ in ((cc["l"], cc["r"]), (cc["r"], cc["l"])):
+                bb = b_
+                while bb.get("k") in ("DropTemps", "Paren", "AddrOf"):
+                    bb = bb["e"]
+                d_ = bb.get("def") or ""
+                aa = a_
+                while aa.get("k") in ("DropTemps", "Paren", "AddrOf"):
+                    aa = aa["e"]
+                if d_.startswith(FLAG_PREFIX) and aa.get("k") == "Path" and aa.get("res") == "local":
+                    try:
+                        fl = self._flag_of(sx.eval(aa))
+                    except Exception:
+                        fl = None
+                    if fl is not None:
+                        holds = (fl == d_[len(FLAG_PREFIX):]) == (cc["op"] == "Eq")
+                        if neg:
+                            holds = not holds
+                        return "then" if holds else "else"
         return None
 
     @staticmethod
